@@ -1,5 +1,434 @@
 /-
-C14 — property theorems (stub: not built yet).
+C14 — Timeouts fire, only when due, and the clock cleans up.
+
+*Partial* property: the wall clock and the scheduler are assumptions.  What is proved is the logic of
+the clock state machine `RegexVerif.Clock` (Model/Clock.lean), a line-by-line model of fastclock.go,
+under the timing assumption that one iteration of runClock takes between `period` and `period + eps`
+(`eps` is a parameter) and that makeDeadline executes atomically.  The model is tied to the source by
+the regenerated facts `Generated.Clock` (constants and the statement skeleton of every function that
+is modelled) and to the running code by leg H.
 -/
+import RegexVerif.Lemmas.Clock
+import RegexVerif.Generated.Clock
+
+set_option linter.unusedSimpArgs false
+
 namespace RegexVerif.Props.C14
+open RegexVerif RegexVerif.Clock RegexVerif.Lemmas.Clock
+
+/-! ### obligations regenerated from the Go source (`Generated.Clock`) -/
+
+/-- The constants of fastclock.go are the ones the model uses: `durationToTicks` shifts right by 20,
+    `extendClock` keeps the clock alive one second (`time.Second`) beyond the largest deadline, and the
+    default period is 100 ms. -/
+theorem source_constants :
+    Generated.Clock.tickShift = 20 ∧ (2 : Int) ^ Generated.Clock.tickShift = tickNs ∧
+    Generated.Clock.slopNs = goSlop ∧ Generated.Clock.defaultClockPeriodNs = goDefaultPeriod ∧
+    Generated.Clock.clockPeriodInit = "DefaultClockPeriod" := by decide
+
+/-- `makeDeadline`, `extendClock` and `deadlineTicks` are, statement for statement, what
+    `Clock.makeDeadline`, `Clock.extendClock` and `Clock.deadlineTicks` model: the order of the reads of
+    `current`/`clockEnd`, the refresh of `current` under `!running && !start.IsZero()`, the recomputed
+    `end`, the `time.Second` slop, `running = true; go runClock()`. -/
+theorem source_makeDeadline :
+    Generated.Clock.makeDeadlineSrc =
+      ["{",
+       "end := fast.current.read() + deadlineTicks(d)",
+       "if end > fast.clockEnd.read() {",
+       "fast.mu.Lock()",
+       "if !fast.running && !fast.start.IsZero() {",
+       "fast.current.write(durationToTicks(time.Since(fast.start)))",
+       "end = fast.current.read() + deadlineTicks(d)",
+       "}",
+       "fast.mu.Unlock()",
+       "extendClock(end)",
+       "}",
+       "return end",
+       "}"] ∧
+    Generated.Clock.extendClockSrc =
+      ["{",
+       "fast.mu.Lock()",
+       "defer fast.mu.Unlock()",
+       "if fast.start.IsZero() {",
+       "fast.start = time.Now()",
+       "}",
+       "if shutdown := end + durationToTicks(time.Second); shutdown > fast.clockEnd.read() {",
+       "fast.clockEnd.write(shutdown)",
+       "}",
+       "if !fast.running {",
+       "fast.running = true",
+       "go runClock()",
+       "}",
+       "}"] ∧
+    Generated.Clock.deadlineTicksSrc =
+      ["{",
+       "if d > math.MaxInt64-clockPeriod {",
+       "return durationToTicks(math.MaxInt64)",
+       "}",
+       "return durationToTicks(d + clockPeriod)",
+       "}"] ∧
+    Generated.Clock.durationToTicksSrc = ["{", "return fasttime(d) >> 20", "}"] ∧
+    Generated.Clock.reachedSrc = ["{", "return fast.current.read() >= t", "}"] := by decide
+
+/-- `runClock` and `stopClock` are what `Clock.tick` and `Clock.stop` model: the loop condition
+    `current <= clockEnd` evaluated right after `current` is written, `running = false` on exit; stop
+    writes `clockEnd = 0` only when a clock is running. -/
+theorem source_runClock :
+    Generated.Clock.runClockSrc =
+      ["{",
+       "fast.mu.Lock()",
+       "defer fast.mu.Unlock()",
+       "for fast.current.read() <= fast.clockEnd.read() {",
+       "fast.mu.Unlock()",
+       "time.Sleep(clockPeriod)",
+       "fast.mu.Lock()",
+       "newTime := durationToTicks(time.Since(fast.start))",
+       "fast.current.write(newTime)",
+       "}",
+       "fast.running = false",
+       "}"] ∧
+    Generated.Clock.stopClockSrc =
+      ["{",
+       "fast.mu.Lock()",
+       "if fast.running {",
+       "fast.clockEnd.write(fasttime(0))",
+       "}",
+       "fast.mu.Unlock()",
+       "isRunning := true",
+       "for isRunning {",
+       "time.Sleep(clockPeriod / 2)",
+       "fast.mu.Lock()",
+       "isRunning = fast.running",
+       "fast.mu.Unlock()",
+       "}",
+       "}"] ∧
+    Generated.Clock.stopTimeoutClockSrc = ["{", "stopClock()", "}"] ∧
+    Generated.Clock.setTimeoutCheckPeriodSrc = ["{", "clockPeriod = d", "}"] := by decide
+
+/-- The runner side is what `Clock.startWatch` and `Clock.reached` model: MatchTimeout = MaxInt64
+    switches checking off, otherwise one `makeDeadline(timeout)` per scan, and a timeout error is
+    returned exactly when `deadline.reached()`; the scan loop checks once per candidate and the
+    interpreter loop has one check per step. -/
+theorem source_runner :
+    Generated.Clock.scanTimeoutSrc =
+      ["r.timeout = timeout",
+       "r.ignoreTimeout = (time.Duration(math.MaxInt64) == timeout)",
+       "call startTimeoutWatch",
+       "call CheckTimeout"] ∧
+    Generated.Clock.startTimeoutWatchSrc =
+      ["{", "if r.ignoreTimeout {", "return", "}", "r.deadline = makeDeadline(r.timeout)", "}"] ∧
+    Generated.Clock.checkTimeoutSrc =
+      ["{",
+       "if r.ignoreTimeout || !r.deadline.reached() {",
+       "return nil",
+       "}",
+       "return fmt.Errorf(\"match timeout after %v on input `%v`\", r.timeout, string(r.Runtext))",
+       "}"] ∧
+    Generated.Clock.executeCheckTimeoutCalls = 1 := by decide
+
+/-! ### the deadline arithmetic (fix 45a1777) -/
+
+/-- **No wrap-around.** For every clock period `0 ≤ period ≤ MaxInt64` and all timeouts
+    `0 ≤ d ≤ d' ≤ MaxInt64`: the argument handed to `durationToTicks` stays within int64
+    (`effDur ≤ MaxInt64`, so the Go addition `d + clockPeriod` is only evaluated when it cannot
+    overflow), the tick count is non-negative, monotone in `d`, at least the tick count of `d` itself
+    and at most `durationToTicks(MaxInt64)`.  (Go: `deadlineTicks`.) -/
+theorem deadline_no_wrap (period d d' : Int) (hp : 0 ≤ period) (hp' : period ≤ maxInt64)
+    (hd : 0 ≤ d) (hdd : d ≤ d') (hd' : d' ≤ maxInt64) :
+    deadlineTicks period d = ticks (effDur period d) ∧ d ≤ effDur period d ∧ effDur period d ≤ maxInt64 ∧
+    0 ≤ deadlineTicks period d ∧ ticks d ≤ deadlineTicks period d ∧
+    deadlineTicks period d ≤ deadlineTicks period d' ∧ deadlineTicks period d' ≤ ticks maxInt64 := by
+  unfold deadlineTicks effDur
+  simp only [ticks_eq]
+  unfold maxInt64 at *
+  refine ⟨?_, ?_, ?_, ?_, ?_, ?_, ?_⟩ <;> (repeat' split) <;> omega
+
+/-- the hypotheses are satisfiable and the saturating branch is exercised: period 1 ms, d = MaxInt64-1 -/
+example : deadlineTicks 1000000 (maxInt64 - 1) = 8796093022207 ∧ deadlineTicks 1000000 50000000 = 48 := by decide
+
+/-- **The defect before 45a1777**, documented: with the old formula
+    `durationToTicks(d + clockPeriod)` (int64 addition) a timeout within one period of MaxInt64 gives a
+    *negative* tick count, so the deadline lies in the past and the match times out at once; the tick
+    count is not monotone in `d`. -/
+example : oldDeadlineTicks 1000000 (maxInt64 - 1) = -8796093022208 := by decide
+example : ¬ (∀ d, 0 ≤ d → d ≤ maxInt64 → 0 ≤ oldDeadlineTicks 100000000 d) := by
+  intro h; exact absurd (h (maxInt64 - 1) (by decide) (by decide)) (by decide)
+example : ¬ (∀ d d', 0 ≤ d → d ≤ d' → d' ≤ maxInt64 → oldDeadlineTicks 1000000 d ≤ oldDeadlineTicks 1000000 d') := by
+  intro h; exact absurd (h 0 (maxInt64 - 1) (by decide) (by decide) (by decide)) (by decide)
+/-- where no wrap occurs the old and the new formula agree -/
+example : ∀ d ∈ [0, 1, 20000000, 3600000000000, maxInt64 - 1000000], oldDeadlineTicks 1000000 d = deadlineTicks 1000000 d := by decide
+
+/-! ### invariants of the clock state machine (every reachable state) -/
+
+/-- **`current` never runs ahead of real time.** In every reachable state, once the clock has been
+    started `0 ≤ current ≤ durationToTicks(now - start)`; before the first use `current = 0`.
+    (Go: the value compared by `reached()` is a time that has really passed.) -/
+theorem current_le_now (p : Params) (hp : p.Valid) (s : State) (h : Reachable p s) :
+    (s.started = true → 0 ≤ s.current ∧ s.current ≤ ticks (s.now - s.startNs)) ∧
+    (s.started = false → s.current = 0) := by
+  have hi := inv_of_reachable p hp s h
+  refine ⟨fun hs => ?_, fun hs => (hi.unstarted hs).1⟩
+  have hc := hi.cur_eq hs
+  have hl := hi.lw_le
+  rw [ticks_eq]; omega
+
+/-- **A running clock is fresh.** While an updater is running, `current` is the tick count of a real
+    time `w` that is at most `period + eps` old (its last wake-up, or its birth — when `current` was
+    re-read from the wall clock).  This is the staleness the `+clockPeriod` slack of `deadlineTicks`
+    compensates. -/
+theorem fresh_when_running (p : Params) (hp : p.Valid) (s : State) (h : Reachable p s)
+    (hr : s.running = true) :
+    ∃ w, s.current = ticks (w - s.startNs) ∧ w ≤ s.now ∧ s.now - w ≤ p.period + p.eps := by
+  have hi := inv_of_reachable p hp s h
+  have hpr := hi.progress hr
+  refine ⟨s.lastWrite, ?_, hi.lw_le, by omega⟩
+  rw [ticks_eq]; exact (hi.cur_eq hpr.1).1
+
+/-- **No early timeout.** If in a reachable state a pending deadline — made at real time `t0` for
+    MatchTimeout `d` — is `reached()`, then the real time elapsed since `t0` is at least
+    `min(d+period, MaxInt64) - period - eps - 2097150 ns`; for `d ≤ MaxInt64 - period` that is
+    `d - eps - (2 ticks - 2 ns)`.  Why: the deadline is `current + ticks(d+period)`; `current` was stale by
+    at most `period + eps` when the deadline was made (the updater wakes at least that often) — this is
+    what the `+clockPeriod` slack pays for — and each of the two floor divisions loses less than one
+    tick.  When no updater was running (`fresh`) `current` was re-read from the wall clock first, and the
+    bound is `d + period - (2 ticks - 2 ns)`: the slack is not even used up. -/
+theorem no_early_timeout (p : Params) (hp : p.Valid) (s : State) (h : Reachable p s)
+    (e : Deadline) (he : e ∈ s.pending) (hr : reached s e.dl = true) :
+    effDur p.period e.d - p.period - p.eps - 2097150 ≤ s.now - e.t0 ∧
+    (e.d ≤ maxInt64 - p.period → e.d - p.eps - 2097150 ≤ s.now - e.t0) ∧
+    (e.fresh = true → effDur p.period e.d - 2097150 ≤ s.now - e.t0) := by
+  have hi := inv_of_reachable p hp s h
+  have hd := hi.dls e he
+  obtain ⟨hp0, hp1, he0, _, _⟩ := hp
+  obtain ⟨_, _, _, _, _, heff, _⟩ := dt_facts p.period e.d hp0 hp1 hd.d_nonneg hd.d_le
+  have hl := hi.lw_le
+  have ht := hd.t0_le
+  simp only [reached, decide_eq_true_eq] at hr
+  cases hs : s.started
+  · have hu := hd.unstarted hs
+    refine ⟨by omega, fun h1 => by have := heff h1; omega, fun _ => by omega⟩
+  · have hc := hi.cur_eq hs
+    have h1 := hd.early hs
+    have h2 := hd.earlyFresh hs
+    refine ⟨by omega, fun h3 => by have := heff h3; omega, fun hf => by have := h2 hf; omega⟩
+
+/-- **The clock covers every pending deadline.** In every reachable state each pending deadline
+    (made since the last StopTimeoutClock) is `≤ clockEnd`, and as long as it is not `reached()` an
+    updater is running — so the clock keeps ticking until every pending deadline has been reached. -/
+theorem clock_covers_deadlines (p : Params) (hp : p.Valid) (s : State) (h : Reachable p s)
+    (e : Deadline) (he : e ∈ s.pending) :
+    e.dl ≤ s.clockEnd ∧ (reached s e.dl = false → s.running = true) := by
+  have hd := (inv_of_reachable p hp s h).dls e he
+  refine ⟨hd.covered, fun hr => ?_⟩
+  simp only [reached, decide_eq_false_iff_not] at hr
+  rcases hd.live with h1 | h1
+  · exact h1
+  · exact absurd h1 hr
+
+/-- **Timeouts fire.** In every reachable state, a pending deadline made at `t0` for timeout `d` is
+    `reached()` as soon as real time is `≥ t0 + d + 2·period + eps`: the first wake-up of the updater at
+    or after `t0 + d + period` stores a time `≥` the deadline, wake-ups are at most `period + eps` apart,
+    and the updater is alive by `clock_covers_deadlines`.  (The runner then sees it at its next
+    CheckTimeout: once per scan candidate and once per interpreter step.) -/
+theorem timeout_within (p : Params) (hp : p.Valid) (s : State) (h : Reachable p s)
+    (e : Deadline) (he : e ∈ s.pending) (hn : e.t0 + e.d + 2 * p.period + p.eps ≤ s.now) :
+    reached s e.dl = true := by
+  have hi := inv_of_reachable p hp s h
+  have hd := hi.dls e he
+  simp only [reached, decide_eq_true_eq]
+  rcases hd.live with hr | h1
+  · have hpr := hi.progress hr
+    have hc := hi.cur_eq hpr.1
+    rcases hd.within hpr.1 with h2 | h2
+    · exact h2
+    · omega
+  · exact h1
+
+/-- the step form of `timeout_within`: the wake-up of the updater that happens at a real time
+    `≥ t0 + d + period` makes the deadline `reached()` -/
+theorem timeout_at_tick (p : Params) (hp : p.Valid) (s s' : State) (h : Reachable p s) (dt : Int)
+    (hs : step p s (.tick dt) = some s') (e : Deadline) (he : e ∈ s.pending)
+    (hn : e.t0 + e.d + p.period ≤ s'.now) : reached s' e.dl = true := by
+  have hi' := inv_of_reachable p hp s' (Reachable.step _ h hs)
+  simp only [step] at hs
+  split at hs
+  · next hc =>
+    cases hs
+    have hst := ((inv_of_reachable p hp s h).progress hc.1).1
+    have hd := hi'.dls e (by simpa [tick] using he)
+    have hw := hd.within (by simpa [tick] using hst)
+    simp only [reached, decide_eq_true_eq]
+    simp only [tick, ticks_eq] at hw hn ⊢
+    omega
+  · cases hs
+
+/-- **The clock goroutine exits.** In a reachable state, a wake-up of the updater at a real time
+    `≥ start + 2^20·(clockEnd+1)` leaves the loop: `running = false`. -/
+theorem clock_exits (p : Params) (_hp : p.Valid) (s s' : State) (_h : Reachable p s) (dt : Int)
+    (hs : step p s (.tick dt) = some s') (hn : s.startNs + 1048576 * (s.clockEnd + 1) ≤ s.now + dt) :
+    s'.running = false := by
+  simp only [step] at hs
+  split at hs
+  · cases hs
+    simp only [tick, ticks_eq, decide_eq_false_iff_not]
+    omega
+  · cases hs
+
+/-- … and that wake-up comes in time: while an updater is running whose loop condition held at its last
+    wake-up, real time is `< start + 2^20·(clockEnd+1) + period + eps`.  With no new deadline the
+    goroutine is therefore gone `period + eps` after the end of the slop. -/
+theorem clock_exit_bound (p : Params) (hp : p.Valid) (s : State) (h : Reachable p s)
+    (hr : s.running = true) (hc : s.current ≤ s.clockEnd) :
+    s.now < s.startNs + 1048576 * (s.clockEnd + 1) + p.period + p.eps := by
+  have hi := inv_of_reachable p hp s h
+  have hpr := hi.progress hr
+  have hcur := hi.cur_eq hpr.1
+  omega
+
+/-- Conversely the updater is not lost early: started, and real time still within `clockEnd` ⇒ running.
+    (So for one second after the latest deadline the goroutine is there, unless StopTimeoutClock.) -/
+theorem clock_runs_until_end (p : Params) (hp : p.Valid) (s : State) (h : Reachable p s)
+    (hs : s.started = true) (hn : ticks (s.now - s.startNs) ≤ s.clockEnd) : s.running = true := by
+  have hi := inv_of_reachable p hp s h
+  have hcur := hi.cur_eq hs
+  have hl := hi.lw_le
+  rw [ticks_eq] at hn
+  cases hr : s.running
+  · have := hi.stopped hs hr; omega
+  · rfl
+
+/-- StopTimeoutClock: after the write of `clockEnd = 0` the next wake-up of the updater that sees a
+    non-zero time leaves the loop. -/
+theorem stop_exits (p : Params) (s s' : State) (dt : Int)
+    (hs : step p (stop s) (.tick dt) = some s') (hc : 0 < s'.current) (hr : s.running = true) :
+    s'.running = false := by
+  simp only [step] at hs
+  split at hs
+  · cases hs
+    simp only [tick, stop, hr, ↓reduceIte, decide_eq_false_iff_not] at hc ⊢
+    omega
+  · cases hs
+
+/-- **Restart on demand.** In a reachable state with no updater running — never started, exited after
+    `clockEnd`, or stopped — a new timed match (`0 ≤ d < MaxInt64`; on the very first use also
+    `d + period ≥ 1 tick`) starts one: afterwards `running`, `current` is the exact tick count of real
+    time (the refresh: no stale value enters the deadline), the new deadline is `current + deadlineTicks d`
+    and `clockEnd` covers it plus the slop. -/
+theorem restart_on_demand (p : Params) (hp : p.Valid) (s : State) (h : Reachable p s)
+    (hr : s.running = false) (d : Int) (hd0 : 0 ≤ d) (hd1 : d < maxInt64)
+    (hfirst : s.started = true ∨ 1048576 ≤ d + p.period) :
+    (startWatch p s d).running = true ∧ (startWatch p s d).started = true ∧
+    (startWatch p s d).current = ticks ((startWatch p s d).now - (startWatch p s d).startNs) ∧
+    ∃ e, (startWatch p s d).pending = e :: s.pending ∧ e.fresh = true ∧ e.t0 = s.now ∧
+      e.dl = (startWatch p s d).current + deadlineTicks p.period d ∧
+      e.dl + ticks p.slop ≤ (startWatch p s d).clockEnd := by
+  have hi := inv_of_reachable p hp s h
+  obtain ⟨hp0, hp1, he0, hs0, hs1⟩ := hp
+  obtain ⟨hdt, heff0, heff1, heff2, heff3, heff4, heff5⟩ := dt_facts p.period d hp0 hp1 hd0 (by omega)
+  have hne : d ≠ maxInt64 := by omega
+  unfold startWatch
+  rw [if_neg hne]
+  generalize hD : deadlineTicks p.period d = D at *
+  generalize hE : effDur p.period d = E at *
+  have hgt : s.current + D > s.clockEnd := by
+    cases hst : s.started
+    · have hu := hi.unstarted hst
+      rcases hfirst with h1 | h1
+      · simp [hst] at h1
+      · have : 1048576 ≤ E := by
+          by_cases h2 : d ≤ maxInt64 - p.period
+          · have := heff4 h2; omega
+          · have := heff5 (by omega); unfold maxInt64 at *; omega
+        omega
+    · have := hi.stopped hst hr; omega
+  cases hst : s.started <;>
+    simp only [makeDeadline, refresh, extendClock, hr, hst, hgt, hD, ticks_eq, Bool.not_true, Bool.not_false,
+      Bool.and_true, Bool.and_false, Bool.false_eq_true, ↓reduceIte]
+  · have hu := hi.unstarted hst
+    exact ⟨trivial, trivial, by omega, _, rfl, rfl, rfl, rfl, by dsimp only; omega⟩
+  · exact ⟨trivial, trivial, trivial, _, rfl, rfl, rfl, rfl, by dsimp only; omega⟩
+
+/-- **No int64 overflow in the clock arithmetic.** As long as the process has run for less than
+    MaxInt64 ns since the clock was first used (292 years), for every `0 ≤ d ≤ MaxInt64` the deadline
+    returned by `makeDeadline` and the `shutdown` value `end + durationToTicks(time.Second)` lie in
+    `[0, MaxInt64]` — the unbounded integers of the model and Go's int64 agree. -/
+theorem no_int64_overflow (p : Params) (hp : p.Valid) (s : State) (h : Reachable p s)
+    (hage : s.started = true → s.now - s.startNs ≤ maxInt64) (d : Int) (hd0 : 0 ≤ d) (hd1 : d ≤ maxInt64) :
+    0 ≤ (makeDeadline p s d).2 ∧ (makeDeadline p s d).2 + ticks p.slop ≤ maxInt64 ∧
+    s.current + deadlineTicks p.period d ≤ maxInt64 := by
+  have hi := inv_of_reachable p hp s h
+  have hcl := current_le_now p hp s h
+  obtain ⟨hp0, hp1, he0, hs0, hs1⟩ := hp
+  obtain ⟨hdt, heff0, heff1, heff2, heff3, heff4, _⟩ := dt_facts p.period d hp0 hp1 hd0 hd1
+  have hl := hi.lw_le
+  generalize hD : deadlineTicks p.period d = D at *
+  generalize hE : effDur p.period d = E at *
+  simp only [ticks_eq] at hcl ⊢
+  cases hst : s.started
+  · have hu := hi.unstarted hst
+    simp only [makeDeadline, refresh, hu.2.2, hst, hD, Bool.and_false, Bool.false_eq_true, ↓reduceIte]
+    unfold maxInt64 at *
+    refine ⟨?_, ?_, ?_⟩ <;> (try split) <;> omega
+  · have h1 := hcl.1 hst
+    have h2 := hage hst
+    have hc := hi.cur_eq hst
+    cases hr : s.running <;>
+      simp only [makeDeadline, refresh, hr, hst, hD, ticks_eq, Bool.not_true, Bool.not_false, Bool.and_true, Bool.and_false,
+        Bool.false_eq_true, ↓reduceIte] <;>
+      unfold maxInt64 at * <;>
+      refine ⟨?_, ?_, ?_⟩ <;> (try split) <;> omega
+
+/-! ### the hypotheses are satisfiable: a concrete history
+
+period 400 ms, eps 1 ms.  5 µs after program start a match with MatchTimeout 1 s begins (first use
+of the clock: deadline 1335 ticks ≈ 1.4 s, clockEnd 2288 ticks ≈ 2.4 s); the updater wakes every
+400 ms. -/
+
+def pEx : Params := { period := 400000000, eps := 1000000, slop := goSlop }
+
+example : pEx.Valid := by unfold Params.Valid pEx goSlop maxInt64; decide
+
+def evsEx (nTicks : Nat) : List Event :=
+  [.idle 5000, .make 1000000000] ++ List.replicate nTicks (.tick 400000000)
+
+/-- after three wake-ups (1.2 s) the deadline is pending, not reached, the updater running -/
+example : ∃ s, run pEx State.init (evsEx 3) = some s ∧ Reachable pEx s ∧
+    s.pending = [{ t0 := 5000, d := 1000000000, dl := 1335, fresh := true }] ∧
+    reached s 1335 = false ∧ s.running = true ∧ s.clockEnd = 2288 :=
+  ⟨_, rfl, reachable_of_run pEx (evsEx 3) _ _ Reachable.init rfl, by decide⟩
+
+/-- the fourth wake-up (1.6 s ≥ t0 + d + period) makes it reached — 1.6 s after it was made, not
+    earlier than d -/
+example : ∃ s, run pEx State.init (evsEx 4) = some s ∧ reached s 1335 = true ∧ s.now - 5000 = 1600000000 :=
+  ⟨_, rfl, by decide⟩
+
+/-- the fifth wake-up happens at 2.0 s ≥ t0 + d + 2·period + eps = 1.801 s: the hypothesis of
+    `timeout_within` is met by a reachable state with a pending deadline -/
+example : ∃ s e, run pEx State.init (evsEx 5) = some s ∧ e ∈ s.pending ∧
+    e.t0 + e.d + 2 * pEx.period + pEx.eps ≤ s.now ∧ reached s e.dl = true :=
+  ⟨_, { t0 := 5000, d := 1000000000, dl := 1335, fresh := true }, rfl, by decide⟩
+
+/-- hypotheses of `clock_exits`: after six wake-ups (2.4 s, current = 2288 = clockEnd, still running) the
+    seventh comes at 2.8 s ≥ start + 2^20·(clockEnd+1) = 2.40019 s -/
+example : ∃ s s', run pEx State.init (evsEx 6) = some s ∧ s.running = true ∧ s.current = s.clockEnd ∧
+    step pEx s (.tick 400000000) = some s' ∧ s.startNs + 1048576 * (s.clockEnd + 1) ≤ s.now + 400000000 ∧
+    s'.running = false :=
+  ⟨_, _, rfl, by decide, by decide, rfl, by decide, by decide⟩
+
+/-- the runner returns; the seventh wake-up (2.8 s > clockEnd) ends the updater, and a timed match
+    after a further idle minute starts a new one with an exact `current` (57029 ticks = 59.8 s) -/
+example : ∃ s, run pEx State.init (evsEx 4 ++ [.finish 0] ++ List.replicate 3 (.tick 400000000)) = some s ∧
+    s.running = false ∧ s.pending = [] ∧ s.current = 2670 ∧
+    ∃ s', run pEx s [.idle 57000000000, .make 50000000] = some s' ∧ s'.running = true ∧
+      s'.current = 57029 ∧ s'.pending = [{ t0 := 59800005000, d := 50000000, dl := 57458, fresh := true }] :=
+  ⟨_, rfl, by decide, by decide, by decide, _, rfl, by decide⟩
+
+/-- documented quirk: StopTimeoutClock while a timed match is in flight.  After `stop` and the next
+    wake-up no updater runs and `current` (381) will never reach the runner's deadline (1335): that match
+    can no longer time out unless another timed match restarts the clock.  The model drops such deadlines
+    from `pending`, so the theorems above speak about deadlines made after the last stop. -/
+example : ∃ s, run pEx State.init [.idle 5000, .make 1000000000, .stop, .tick 400000000] = some s ∧
+    s.running = false ∧ s.current = 381 ∧ reached s 1335 = false ∧ s.pending = [] :=
+  ⟨_, rfl, by decide⟩
+
 end RegexVerif.Props.C14
